@@ -3,7 +3,9 @@ package main
 import (
 	"bytes"
 	"encoding/json"
+	"fmt"
 	"reflect"
+	"runtime"
 
 	structform "github.com/elastic/go-structform"
 	"github.com/elastic/go-structform/gotype"
@@ -157,3 +159,225 @@ func runUnfold(c *Case, tr *Trace) {
 	}
 	res["r"] = describe(q.Elem())
 }
+
+// ---------------------------------------------------------------- kind "keycache" (C20)
+
+func init() { extraKinds["keycache"] = runKeyCache }
+
+var cacheKeys = []string{"", "a", "ab", "abc", "b", "kéy"}
+
+// runKeyCache unfolds a sequence of documents (objects whose keys follow the
+// access history of the case) into map targets, with the key cache enabled
+// (sub.cap) and without, overwriting the source bytes after every document.
+//
+//	sub.hist: key indices 1..n, 0 = document boundary; sub.target: ifc | int | struct
+func runKeyCache(c *Case, tr *Trace) {
+	capN := int(c.Sub["cap"].(float64))
+	target, _ := c.Sub["target"].(string)
+	var docs [][]int
+	cur := []int{}
+	for _, x := range c.Sub["hist"].([]interface{}) {
+		k := int(x.(float64))
+		if k == 0 {
+			docs = append(docs, cur)
+			cur = []int{}
+		} else {
+			cur = append(cur, k)
+		}
+	}
+	docs = append(docs, cur)
+	api := formats[c.Fmt]
+	// document bytes: {key: position, ...} written by the real encoder (verified by C07)
+	encode := func(keys []int, pos0 int) []byte {
+		sk := &sink{}
+		enc := api.newVisitor(sk, Opts{})
+		enc.OnObjectStart(len(keys), structform.AnyType)
+		for i, k := range keys {
+			enc.OnKey(cacheKeys[k-1])
+			if target == "struct" {
+				enc.OnObjectStart(1, structform.AnyType)
+				enc.OnKey("x")
+				enc.OnInt(pos0 + i)
+				enc.OnObjectFinished()
+			} else {
+				enc.OnInt(pos0 + i)
+			}
+		}
+		enc.OnObjectFinished()
+		return sk.all
+	}
+	type S struct{ X int }
+	newTarget := func() interface{} {
+		switch target {
+		case "int":
+			return &map[string]int{}
+		case "struct":
+			return &map[string]S{}
+		}
+		return &map[string]interface{}{}
+	}
+	run := func(enable bool) ([]VD, [][]string, string) {
+		un, err := gotype.NewUnfolder(nil)
+		if err != nil {
+			return nil, nil, err.Error()
+		}
+		if enable {
+			un.EnableKeyCache(capN)
+		}
+		var res []VD
+		var lru [][]string
+		pos := 0
+		var keep []interface{}
+		for _, d := range docs {
+			buf := encode(d, pos)
+			pos += len(d)
+			to := newTarget()
+			keep = append(keep, to)
+			if err := un.SetTarget(to); err != nil {
+				return res, lru, err.Error()
+			}
+			if err := api.parse(buf, un); err != nil {
+				return res, lru, err.Error()
+			}
+			for i := range buf {
+				buf[i] = 0xAA // the bytes the keys were first seen in are gone
+			}
+			lru = append(lru, un.VerifKeyCache())
+		}
+		if c.ID%64 == 0 {
+			runtime.GC()
+		}
+		for _, to := range keep {
+			res = append(res, describe(reflect.ValueOf(to).Elem()))
+		}
+		return res, lru, ""
+	}
+	with, lru, errW := run(true)
+	without, _, errN := run(false)
+	if with == nil {
+		with = []VD{}
+	}
+	if without == nil {
+		without = []VD{}
+	}
+	lruInts := [][][]int{}
+	for _, l := range lru {
+		row := [][]int{}
+		for _, k := range l {
+			row = append(row, strToInts(k))
+		}
+		lruInts = append(lruInts, row)
+	}
+	keyTab := [][]int{}
+	for _, k := range cacheKeys {
+		keyTab = append(keyTab, strToInts(k))
+	}
+	tr.Extra = map[string]interface{}{"with": with, "without": without, "errw": errW, "errn": errN, "lru": lruInts, "keytab": keyTab}
+}
+
+// ---------------------------------------------------------------- kind "unfoldx" (C14)
+
+func init() { extraKinds["unfoldx"] = runUnfoldX }
+
+const guardByte = 0x5A
+
+// runUnfoldX delivers the first sub.abandon events of c.Stream (any
+// well-formed stream, usually NOT matching the target type) to an unfolder
+// whose target sits between two guard arrays, then Resets the unfolder and
+// processes the follow-up stream sub.follow, which is also processed by a
+// brand-new unfolder.  sub.lenexp = {"i": e}: event i announces length 2^e.
+func runUnfoldX(c *Case, tr *Trace) {
+	t := subTD(c, "T")
+	tt := buildType(&t)
+	abandon := int(c.Sub["abandon"].(float64))
+	var follow []Event
+	{
+		b, _ := json.Marshal(c.Sub["follow"])
+		json.Unmarshal(b, &follow)
+		fc := Case{Stream: follow}
+		fc.normalise()
+		follow = fc.Stream
+	}
+	stream := append([]Event(nil), c.Stream...)
+	if le, ok := c.Sub["lenexp"].(map[string]interface{}); ok {
+		for k, v := range le {
+			var i int
+			fmt.Sscan(k, &i)
+			e := int(v.(float64))
+			if e >= 63 {
+				stream[i].Len = int(^uint(0) >> 1)
+			} else {
+				stream[i].Len = 1 << uint(e)
+			}
+		}
+	}
+	guard := reflect.ArrayOf(64, reflect.TypeOf(byte(0)))
+	holderT := reflect.StructOf([]reflect.StructField{
+		{Name: "G1", Type: guard}, {Name: "V", Type: tt}, {Name: "G2", Type: guard},
+	})
+	h := reflect.New(holderT).Elem()
+	for _, g := range []int{0, 2} {
+		for i := 0; i < 64; i++ {
+			h.Field(g).Index(i).SetUint(guardByte)
+		}
+	}
+	res := map[string]interface{}{"T": t, "stage": "", "err": "", "errat": 0, "delivered": 0, "guards": true, "alloc": 0,
+		"deps": []int{}, "fresh": []int{}, "err2": "", "err3": "", "r2": VD{}.normed(), "r3": VD{}.normed()}
+	tr.Extra = res
+	un, err := gotype.NewUnfolder(nil)
+	if err == nil {
+		err = un.SetTarget(h.Field(1).Addr().Interface())
+	}
+	if err != nil {
+		res["stage"], res["err"] = "settarget", err.Error()
+		return
+	}
+	ev := structform.EnsureExtVisitor(un)
+	var m0, m1 runtime.MemStats
+	runtime.ReadMemStats(&m0)
+	n := 0
+	for i := 0; i < abandon && i < len(stream); i++ {
+		n++
+		if err := replayEvent(ev, &stream[i]); err != nil {
+			res["stage"], res["err"], res["errat"] = "event", err.Error(), i+1
+			break
+		}
+	}
+	runtime.ReadMemStats(&m1)
+	res["delivered"] = n
+	d := m1.TotalAlloc - m0.TotalAlloc
+	if d > huge {
+		d = huge
+	}
+	res["alloc"] = int(d)
+	for _, g := range []int{0, 2} {
+		for i := 0; i < 64; i++ {
+			if h.Field(g).Index(i).Uint() != guardByte {
+				res["guards"] = false
+			}
+		}
+	}
+	// the document is abandoned here, whatever state the unfolder is in
+	un.Reset()
+	res["deps"] = un.VerifDepths()
+	fresh, _ := gotype.NewUnfolder(nil)
+	res["fresh"] = fresh.VerifDepths()
+	runFollow := func(u *gotype.Unfolder) (VD, string) {
+		q := reflect.New(tt)
+		if err := u.SetTarget(q.Interface()); err != nil {
+			return describe(q.Elem()), "settarget: " + err.Error()
+		}
+		v := structform.EnsureExtVisitor(u)
+		for i := range follow {
+			if err := replayEvent(v, &follow[i]); err != nil {
+				return describe(q.Elem()), err.Error()
+			}
+		}
+		return describe(q.Elem()), ""
+	}
+	r2, e2 := runFollow(un)
+	r3, e3 := runFollow(fresh)
+	res["r2"], res["err2"], res["r3"], res["err3"] = r2, e2, r3, e3
+}
+
+func (v VD) normed() VD { v.norm(); return v }
